@@ -10,39 +10,18 @@
 import RxModel.Spec.OpLang
 import RxModel.Model.Program
 import RxModel.Props.C08
+import RxModel.Proofs.PreLemmas
 namespace Rx.C08
 open Rx
 
-/-- what `check_preconditions(start)` demands for one recorded precondition, in terms of the language -/
-def PreOK (ctx : Ctx) (q : Pre) (start : Nat) : Prop :=
-  match q.fixed with
-  | some f => ∃ n, OpR ctx q.op f n
-  | none => ∃ k n, start ≤ k ∧ q.minPos ≤ k ∧ k < ctx.len ∧ OpR ctx q.op k n
-
-mutual
-/-- no empty literal (the compiler never builds one outside the literal program `atom "" · end`,
-    whose preconditions are never consulted because it has a prefix) -/
-def noEmptyAtoms : Op → Bool
-  | .atom cs => !cs.isEmpty
-  | .capture _ c => noEmptyAtoms c
-  | .choice bs => noEmptyAtomsL bs
-  | .seq ops => noEmptyAtomsL ops
-  | .rep _ c _ _ _ => noEmptyAtoms c
-  | .gfixed c _ _ _ => noEmptyAtoms c
-  | .rfixed c _ _ _ => noEmptyAtoms c
-  | .unamb c _ _ => noEmptyAtoms c
-  | _ => true
-termination_by structural o => o
-def noEmptyAtomsL : List Op → Bool
-  | [] => true
-  | o :: os => noEmptyAtoms o && noEmptyAtomsL os
-termination_by structural l => l
-end
+/-! `PreOK` (what `check_preconditions(start)` demands for one recorded precondition, in terms of
+    the language) and `noEmptyAtoms` / `noEmptyAtomsL` (no empty literal) are defined, unchanged, in
+    `Proofs/PreLemmas` (namespace `Rx.C08`), because the helper lemmas need them. -/
 
 /-- a fixed match length in terms of the language -/
 theorem OpR_matchLen (ctx : Ctx) (op : Op) (hwf : wfOp op = true) (l : Nat) (hl : matchLen op = some l)
-    (hlt : l < usizeMax) (x y : Nat) (h : OpR ctx op x y) : y = x + l := by
-  sorry
+    (hlt : l < usizeMax) (x y : Nat) (h : OpR ctx op x y) : y = x + l :=
+  (PreL.ML_op ctx op hwf l hl x y h).2 hlt
 
 /-- the general step: an operation matched from `x`, where `x` is the recorded fixed position (if
     any), at least the recorded minimum position and at least `start`, satisfies every
@@ -51,15 +30,15 @@ theorem addPre_sound (ctx : Ctx) (hlen : ctx.len < usizeMax) (op : Op) (hwf : wf
     (hne : noEmptyAtoms op = true)
     (fp : Option Nat) (mp start x y : Nat)
     (h : OpR ctx op x y) (hx : x ≤ ctx.len) (hfp : ∀ f, fp = some f → x = f) (hmp : mp ≤ x) (hst : start ≤ x) :
-    ∀ q ∈ addPre ctx.multiLine op fp mp, PreOK ctx q start := by
-  sorry
+    ∀ q ∈ addPre ctx.multiLine op fp mp, PreOK ctx q start :=
+  PreL.addPre_op ctx hlen op hwf hne fp mp start x y h hx hfp hmp hst
 
 /-- hence `check_preconditions(start)` can be met whenever a member of the program's language
     starts at or after `start` -/
 theorem preconditions_sound (ctx : Ctx) (hlen : ctx.len < usizeMax) (op : Op) (hwf : wfOp op = true)
     (hne : noEmptyAtoms op = true)
     (start a b : Nat) (hsa : start ≤ a) (ha : a ≤ ctx.len) (h : OpR ctx op a b) :
-    ∀ q ∈ addPre ctx.multiLine op none 0, PreOK ctx q start := by
-  sorry
+    ∀ q ∈ addPre ctx.multiLine op none 0, PreOK ctx q start :=
+  addPre_sound ctx hlen op hwf hne none 0 start a b h ha (fun _ hf => by cases hf) (Nat.zero_le _) hsa
 
 end Rx.C08
